@@ -116,8 +116,8 @@ theorem inv_pc_only {s : State} (h : Inv s) (t : Tid) (p : Pc)
     (hf : fetchOf p = fetchOf (s.pc t)) (hw : waitOf p = waitOf (s.pc t))
     (hd : drainOf p = drainOf (s.pc t)) (hr : ∀ e, refOf p = some e → refOf (s.pc t) = some e)
     (hwk : ∀ e st r, p ≠ .woken e st r)
-    (hfd : ∀ e ttl r, p = .fetchDone e (.cacheable ttl r) → 0 < ttl := by simp) :
-    Inv { s with pc := upd s.pc t p } := by
+    (hfd : ∀ e ttl r, p = .fetchDone e (.cacheable ttl r) → 0 < ttl := by simp) (u : Tid → Nat := s.ups) :
+    Inv { s with pc := upd s.pc t p, ups := u } := by
   constructor
   all_goals simp only
   · exact h.now_nonneg
@@ -173,13 +173,13 @@ theorem inv_upEnd {s s' : State} (h : Inv s) (t : Tid) (o : Outcome) (hs : step 
       · rename_i hpos
         simp only [Option.some.injEq] at hs; subst hs
         exact inv_pc_only h t _ (by simp [hpc]) (by simp [hpc]) (by simp [hpc]) (by simp [hpc]) (by simp)
-          (by intro e' ttl' r' heq; simp only [Pc.fetchDone.injEq, Outcome.cacheable.injEq] at heq; omega)
+          (by intro e' ttl' r' heq; simp only [Pc.fetchDone.injEq, Outcome.cacheable.injEq] at heq; omega) _
       · simp at hs
     · simp only [Option.some.injEq] at hs; subst hs
-      exact inv_pc_only h t _ (by simp [hpc]) (by simp [hpc]) (by simp [hpc]) (by simp [hpc]) (by simp)
+      exact inv_pc_only h t _ (by simp [hpc]) (by simp [hpc]) (by simp [hpc]) (by simp [hpc]) (by simp) (u := _)
   · rename_i hpc
     simp only [Option.some.injEq] at hs; subst hs
-    exact inv_pc_only h t _ (by simp [hpc]) (by simp [hpc]) (by simp [hpc]) (by simp) (by simp)
+    exact inv_pc_only h t _ (by simp [hpc]) (by simp [hpc]) (by simp [hpc]) (by simp) (by simp) (u := _)
   · simp at hs
 
 theorem inv_age {s s' : State} (h : Inv s) (t : Tid) (hs : step false s (.age t) = some s') : Inv s' := by
